@@ -78,7 +78,17 @@ def define():
     class P8:
         depth = h.Param(dtype=int, desc="depth", default=0)
 
+    @h.paramclass
+    class P9:
+        t = h.Param(dtype=tuple, desc="factory-made default", default_factory=tuple)
+        u = h.Param(dtype=P1, desc="factory-made param-class default", default_factory=P1)
+        n = h.Param(dtype=int, desc="n", default=0)
+
     gens = {}
+
+    def G10(p: P9) -> h.Module:
+        mark("G10", p)
+        return simple_module(len(p.t) + p.u.a)
 
     def G1(p: P1) -> h.Module:
         mark("G1", p)
@@ -137,9 +147,9 @@ def define():
         mark("G9", p)
         return gens["G1"](a=p.a, b=p.b, c=p.c, d=p.d, o=p.o)
 
-    for f in (G1, G2, G3, G4, G5, G6, G7, G8, G9):
+    for f in (G1, G2, G3, G4, G5, G6, G7, G8, G9, G10):
         gens[f.__name__] = h.generator(f)
-    P = {"P1": P1, "P2": P2, "P3": P3, "P4": P4, "P5": P5, "P6": P6, "P7": P7, "P8": P8}
+    P = {"P1": P1, "P2": P2, "P3": P3, "P4": P4, "P5": P5, "P6": P6, "P7": P7, "P8": P8, "P9": P9}
     return gens, P, runs
 
 
@@ -151,7 +161,7 @@ def calls(value_seed: int, n: int):
     r = random.Random(value_seed)
     out = []
     for _ in range(n):
-        g = r.choice(["G1", "G1", "G2", "G2", "G2", "G3", "G4", "G5", "G6", "G7", "G8", "G9"])
+        g = r.choice(["G1", "G1", "G2", "G2", "G2", "G3", "G4", "G5", "G6", "G7", "G8", "G9", "G10", "G10"])
         form = r.choice(["kw", "inst"])
         if g in ("G1", "G9"):
             kw = {"a": r.choice([0, 1, 2, 1.0, True, 10 ** 6, -1]), "b": r.choice(STRS), "c": r.choice([0.0, 1.0, 1, 0.1, 1e-9, 2.5]),
@@ -169,6 +179,12 @@ def calls(value_seed: int, n: int):
             kw = {"m": r.choice([None, ["G1", {"a": 1}], ["G1", {"a": 2}], ["G3", {"n": 1}], "R1", "R2"]), "n": r.choice([0, 1])}
         elif g == "G7":
             kw = {"g": r.choice([None, "G1", "G9"]), "n": r.choice([0, 1, 2])}
+        elif g == "G10":
+            kw = {"n": r.choice([0, 1])}
+            if r.random() < 0.7:
+                kw["t"] = r.choice([[], [1], [1, 2], [2, 1], ["1"]])
+            if r.random() < 0.7:
+                kw["u"] = {"a": r.choice([0, 1, 2]), "b": r.choice(["", "x"])}
         else:
             kw = {"depth": r.choice([0, 1, 2, 3])}
         out.append((g, form, kw))
@@ -207,13 +223,18 @@ def realise(gens, P, g, kw):
             kw["m"] = h.R(r=1)
         elif m == "R2":
             kw["m"] = h.R(r=2)
+    if g == "G10":
+        if "t" in kw:
+            kw["t"] = tuple(kw["t"])
+        if "u" in kw:
+            kw["u"] = P["P1"](**kw["u"])
     if g == "G7" and kw["g"] is not None:
         kw["g"] = gens[kw["g"]]
     return kw
 
 
 def paramclass_of(g):
-    return {"G1": "P1", "G2": "P2", "G3": "P3", "G4": "P4", "G5": "P5", "G6": "P6", "G7": "P7", "G8": "P8", "G9": "P1"}[g]
+    return {"G1": "P1", "G2": "P2", "G3": "P3", "G4": "P4", "G5": "P5", "G6": "P6", "G7": "P7", "G8": "P8", "G9": "P1", "G10": "P9"}[g]
 
 
 def run_program(value_seed: int, order_seed: int, n: int):
